@@ -191,6 +191,11 @@ def random_region(rnd):
     from regions import PixCoord
     frame = rnd.choice(['image', 'image', 'icrs', 'fk5', 'fk4', 'galactic', 'barycentricmeanecliptic'])
     pix = frame == 'image'
+    if frame in ('fk5', 'fk4') and rnd.random() < 0.35:
+        # a frame with non-default attributes: DS9 names the default frame, so the coordinates written must be those of the
+        # default frame (numbers() compares in the default frame of the same name)
+        from astropy.coordinates import FK4, FK5
+        frame = rnd.choice([FK5(equinox='J1975'), FK5(equinox='J2010.5')]) if frame == 'fk5' else FK4(equinox='B1975')
     mag = rnd.choice([1.0, 1.0, 30.0, 1e3]) if pix else 1.0
 
     def c():
@@ -251,6 +256,9 @@ def numbers(r):
             for i, (a, b) in enumerate(zip(np.atleast_1d(v.x), np.atleast_1d(v.y))):
                 out += [(f'{pname}.x{i}', float(a), 1), (f'{pname}.y{i}', float(b), 1)]
         elif hasattr(v, 'spherical'):
+            default = type(v.frame)()
+            if not v.frame.is_equivalent_frame(default):
+                v = v.transform_to(default, merge_attributes=False)        # astropy's precession is trusted
             for i, (a, b) in enumerate(zip(np.atleast_1d(v.spherical.lon.deg), np.atleast_1d(v.spherical.lat.deg))):
                 out += [(f'{pname}.lon{i}', float(a), 1), (f'{pname}.lat{i}', float(b), 1)]
         elif pname == 'angle':
